@@ -9,6 +9,7 @@ require (
 	github.com/grafov/m3u8 v0.12.1
 	github.com/internetarchive/Zeno v0.0.0
 	github.com/ncruces/go-sqlite3 v0.25.0
+	github.com/spf13/pflag v1.0.6
 )
 
 require (
@@ -72,7 +73,6 @@ require (
 	github.com/sourcegraph/conc v0.3.0 // indirect
 	github.com/spf13/afero v1.12.0 // indirect
 	github.com/spf13/cast v1.7.1 // indirect
-	github.com/spf13/pflag v1.0.6 // indirect
 	github.com/spf13/viper v1.20.1 // indirect
 	github.com/subosito/gotenv v1.6.0 // indirect
 	github.com/syndtr/goleveldb v1.0.0 // indirect
